@@ -149,6 +149,8 @@ def gen_numlist(rng, n, positive=True, ints=False, shortcuts=True, allow_jump=Tr
             k = rng.randint(1, min(left - 1, 4))
             a = vals[-1]
             b = a + rng.choice([1, 2, 5, 10]) * (k + 1)
+            if b == 0:
+                b = 1.0 * (k + 1)     # 'nI 0' is rejected by the parser (a C12 finding; no random draw is added here)
             items.append(T("%di" % k))
             items.append(T("%g" % b))
             vals += [a + (b - a) * j / (k + 1) for j in range(1, k + 1)] + [b]
